@@ -16,7 +16,7 @@ CLAIMED = {
    text="Bounded: the real limb kernels (add/sub/less 1..3 limbs, mult up to 2x2, div 1x1 with constant divisors) and the public sign-dispatching operations, in-place variants, rem formula, gcd loop and BigNum::new are decided for every limb value and sign inside those sizes by SAT; a green run says nothing about longer operands or symbolic divisors.",
    note="Trusted: Kani MIR->GOTO, CBMC, CaDiCaL. Oracles: u128/i128 arithmetic, partial-product sums, division lemma. rem/gcd/in-place div are decided over exact one-limb models of the operations below them (stubs listed in evidence)."),
  "C06": dict(cat="model_checking", ref="DESIGN.md §3 C06",
-   text="Bounded: the real Num::add/mul/optimize/flip/neg/minus/floor/is_pos and the NaN short-circuits are decided by SAT for all operand values inside small ranges (exact Euclid model: 4-7 bit; gcd contract model: 8-16 bit; loop-free operations: full 32-bit limb) against the canonical form of the exact rational result. Multi-limb operands are outside the claim.",
+   text="Bounded: the real Num::add/mul/optimize/flip/neg/minus/floor/is_pos and the NaN short-circuits are decided by SAT for all operand values inside small ranges (exact Euclid model: 4-7 bit; gcd contract model: 8-16 bit; loop-free operations: full 32-bit limb) against the canonical form of the exact rational result. Multi-limb operands and the printing clauses (Display of NaN / of integers without denominator: core::fmt + String growth, probe nan_display gave no verdict) are outside the claim.",
    note="Trusted: Kani, CBMC, CaDiCaL, and the one-limb models of BigNum::{add,mul,div,gcd} that replace the bignum layer (that layer is decided under C05; a model-validity harness compares the gcd model with the real loop)."),
  "C07": dict(cat="model_checking", ref="DESIGN.md §3 C07",
    text="Bounded: for every pair of rationals with one-limb (32-bit) numerator/denominator and every sign, two-limb integers, and NaN, the real partial_cmp returns the numeric order / None; area::calc takes the branch the definition prescribes for 5 area shapes with symbolic popped values (integers, small fractions, NaN) and symbolic count. Nothing is claimed for multi-limb fractions.",
